@@ -112,20 +112,20 @@ CHECKS = {
 ADDED = {
     "C01": "Also: two recorded ctx keys per item (two different ctx.<key> items fit a short mode), key spellings that collide with prefix stripping, and accesses interleaved with a sibling stack of the same kind over other data. Overlapping passes over one object (zip, nested loops, resumed pass).",
     "C02": "Also: shape delegation for seven item names, float-valued items through the getall utilities, aliasing bases, numpy / tensor index containers. One-part balanced concats, private attributes through every chain.",
-    "C03": "Also: layouts with unlabeled (-1) samples for the two wrappers that define them, every wrapper stacked on a reversing sub-selection of a larger root, long layouts (17..100, thorough ..1000) for size-dependent library routines, a sparse label space. Class counts 50..200 with every percent k/100.",
+    "C03": "Also: layouts with unlabeled (-1) samples for the two wrappers that define them, every wrapper stacked on a reversing sub-selection of a larger root, long layouts (17..100, thorough ..1000) for size-dependent library routines, a sparse label space. Class counts 50..200 with every percent k/100. Compact (uint8 / int8) label storage on 315- / 350-sample layouts.",
     "C04": "Also: long budgets (5 / 7 epochs) for N<=4, a second full pass over the same object, and full passes after abandoned iterations of the batch sampler and of the sampler itself. (Resume-specific arithmetic is C06's.)",
-    "C05": "Also: long budgets (5 / 7 epochs) for N<=4, and dataloader-level passes after an iteration that was abandoned after one batch / inside the first side pass / half-way. Side samplers whose length changes after the scheduler was built.",
+    "C05": "Also: long budgets (5 / 7 epochs) for N<=4, and dataloader-level passes after an iteration that was abandoned after one batch / inside the first side pass / half-way. Side samplers whose length changes after the scheduler was built. 9..13 configs with sparse due patterns.",
     "C06": "Also: epoch budgets 5 and 7 (thorough up to 13) for small geometries, so that late epoch-boundary checkpoints exist. Every updates-per-epoch value 8..130 (thorough ..400) with batch size 1 / 2.",
     "C07": "Also: sibling instances, inputs with extreme aspect ratios (6:1, 32:1; retry loops take their fallback), plain (non-KD) callables at every position of a composition. One-value ranges, transforms whose strength was scaled before use, inputs of another size before the injection, pad_if_needed crops.",
     "C08": "Also: the same transform object shared by two seeded wrappers, numpy-integer seeds and seed 0, requests with and without context, torch's real worker info installed for the worker phase, and every special stack / leaf transform over an in-memory dataset that hands out its stored tensors. Stored soft labels, plain callables among multi-view configs, a transform assigned after construction / first use.",
     "C09": "Also: torch's worker info is installed exactly as the worker loop does (id, num_workers, seed), and no generator of one worker may share a stream with any generator of another worker. Plain callables among multi-view configs, a transform assigned after construction.",
     "C10": "Also: int64 / float64 one-hot labels, batches of one, a second batch on a collator object that already mixed a batch of another size, and the returned batch must be unchanged after the next call of the same shape. Repeated items in the mode, images with inf / NaN pixels (cutmix).",
     "C11": "Also: soft-label datasets, in-memory datasets handing out stored tensors, seed 0, label-only / image-only / joint requests. Integer sample dtypes, a class count that changes under a live wrapper.",
-    "C12": "Also: sampler-object histories, world sizes above twice the dataset size, and process-group environment histories (init / destroy / build with defaults, length <=4) with torch.distributed's answers owned by the harness. One explicit argument of (rank, world_size), random sampler sizes 31..100 with repeat counts 2..7.",
+    "C12": "Also: sampler-object histories, world sizes above twice the dataset size, and process-group environment histories (init / destroy / build with defaults, length <=4) with torch.distributed's answers owned by the harness. One explicit argument of (rank, world_size), random sampler sizes 31..100 with repeat counts 2..7. Rank streams computed in three interpreter processes with different PYTHONHASHSEED must agree.",
     "C13": "Also: samples_per_class up to 11 with strongly imbalanced layouts, second iterations of one object, class labels stored as numpy / torch integer dtypes on a 140-sample layout. Ranks that use their sampler objects unevenly.",
-    "C14": "Also: non-square crops and inputs with extreme aspect ratios, recorded overlap vs IoU of recorded boxes, label maps with one dominant category (category-ratio retries run out). Seeded semseg pipes with image-only stochastic members, records that must survive the next call.",
+    "C14": "Also: non-square crops and inputs with extreme aspect ratios, recorded overlap vs IoU of recorded boxes, label maps with one dominant category (category-ratio retries run out). Seeded semseg pipes with image-only stochastic members, records that must survive the next call. Two-crop with padding.",
     "C15": "Also: histories over (node, factor) that scale nested members directly, zero-boundary settings, plain callables at every position of a composition, an epochs budget that keeps the last batch. Sampled magnitudes within the scaled range for extreme generator answers, apply probability in effect, scheduled transform over inherited scaling hooks.",
-    "C16": "Also: tied / saturated confidences, seed 0, every wrapper stacked on each class-count-changing wrapper, label smoothing on binary datasets with unlabeled samples. Configuration through public setters, unseeded configurations.",
+    "C16": "Also: tied / saturated confidences, seed 0, every wrapper stacked on each class-count-changing wrapper, label smoothing on binary datasets with unlabeled samples. Configuration through public setters, unseeded configurations. uint8 label containers for four wrappers.",
     "C17": "Also: portrait / landscape grids, tight encoder / predictor scale pairs, batch-size sequences on one collator object. Upper ratio x grid below min_num_patches, non-square patch sizes, masks handed out must survive the next call; divergent replays are violations.",
     "C18": "Also: empty per-sample contexts, a second call on the same pipeline object, members must only see this call's context keys, one collator object in two wrappers with other settings. Python float / bool fields with dtype comparison, flags as 1 / numpy.bool_, attributes reassigned after use.",
     "C19": "Also: readers are copies of one cache object (fork picture) with the Manager replaced for whole executions; sequential histories over (reader, get0 / get1 / clear / release) of length <=4 for 1-2 readers and <=3 for 3 readers with exact load accounting; falsy payloads; a wrapped dataset whose first load of every sample fails. Negative and out-of-range indices, pickled reader copies carrying the transform, the dataloader batch fetch as an operation.",
